@@ -1,5 +1,6 @@
 import Cell2v.Driver.Util
 import Cell2v.Model.ClientServe
+import Cell2v.Model.ClientShared
 /-!
 Model driver for C02 (bubble-node engine, front `gate-1`, backs `chat-1`, `chat-2`, `hall-1`).
 
@@ -125,8 +126,20 @@ def showObs (rs : List (Nat × Nat × Result)) (is : List (String × String × S
 
 /-! ### model mode -/
 
+/-- the shared-state machine (`Model/ClientShared.lean`) run next to the timed per-message model on the
+same traffic, under the schedule the real node follows between two observations: every message is
+processed by the owner as soon as it is posted, every back-end handles its calls at once; at `flush`
+the replies whose nominal delay is within the request timeout are delivered, everything still pending
+expires, the delayed local completions fire, and the late replies arrive (and find no entry).  `late`
+remembers the request ids whose handler is slower than the timeout (driver-side scheduling knowledge,
+not part of the machine). -/
+structure ShSt where
+  st : Shared.FSt := {}
+  late : List Nat := []
+
 structure MState where
   st : St := St.init
+  sh : ShSt := {}
   keys : List (Nat × String) := []
   /-- connections that re-sent a handshake and have not acked yet: their data packets are not read -/
   hsing : List Nat := []
@@ -139,9 +152,63 @@ def MState.sess (m : MState) (c : Nat) (added : Bool := true) : Sess :=
 def MState.bind (m : MState) (c : Nat) (k : String) : MState :=
   { m with keys := (c, k) :: m.keys.filter (·.1 ≠ c) }
 
+def shBacks (c : Cfg) (fuel : Nat) (x : ShSt) : ShSt :=
+  match fuel with
+  | 0 => x
+  | fuel + 1 =>
+    match x.st.calls with
+    | [] => x
+    | cl :: _ =>
+      let late :=
+        match cl.r, c.dir cl.dest with
+        | some r, some inst =>
+          (match (processForward fixed c cl.dest inst cl.f).2 with
+           | some dr => if requestTimeout < dr.1 then [r] else []
+           | none => [])
+        | _, _ => []
+      shBacks c fuel { st := Shared.step c x.st (.back 0), late := late ++ x.late }
+
+/-- a connection the machine has not seen yet is opened first (`reset nc=k` / `pipe` open connections:
+`OnSessionCreate` posts the `AddSession` before anything can be read from the connection) -/
+def shOpen (c : Cfg) (st : Shared.FSt) (sid : Nat) : Shared.FSt :=
+  if st.sessions.contains sid then st else Shared.step c (Shared.step c st (.open sid)) .front
+
+def shSend (c : Cfg) (x : ShSt) (sid : Nat) (msg : ClientMsg) : ShSt :=
+  let st := Shared.step c (Shared.step c (shOpen c x.st sid) (.send sid msg)) .front
+  shBacks c (st.calls.length + 1) { x with st := st }
+
+def shSetKey (c : Cfg) (x : ShSt) (sid : Nat) (k : String) : ShSt :=
+  { x with st := Shared.step c (Shared.step c (shOpen c x.st sid) (.setKey sid k)) .front }
+
+def iter {α : Type} (f : α → α) : Nat → α → α
+  | 0, a => a
+  | n + 1, a => iter f n (f a)
+
+/-- the end of a case: in-time replies, then expiry, then local timers, then the late replies -/
+def shFlush (c : Cfg) (x : ShSt) : Shared.FSt :=
+  let inTime := x.st.dones.filter fun d => ¬ x.late.contains d.1
+  let lateOnes := x.st.dones.filter fun d => x.late.contains d.1
+  let st := { x.st with dones := inTime ++ lateOnes }
+  let st := iter (fun st => Shared.step c (Shared.step c st (.deliver 0)) .front) inTime.length st
+  let st := iter (fun st => Shared.step c st (.expire 0)) st.pending.length st
+  let st := iter (fun st => Shared.step c st (.fire 0)) st.ltimers.length st
+  iter (fun st => Shared.step c (Shared.step c st (.deliver 0)) .front) lateOnes.length st
+
 def applyOps (m : MState) (ops : List Op) : MState × String :=
   let st' := run fixed (tieCfg (m.n2 = 1)) m.st ops
-  ({ m with st := st' }, showObs (st'.out.drop m.st.out.length) (st'.inv.drop m.st.inv.length))
+  let c := tieCfg (m.n2 = 1)
+  let sh := ops.foldl (fun (x : ShSt) op =>
+    match op with
+    | .req s msg => shSend c x s.sid msg
+    | .adv _ => x) m.sh
+  ({ m with st := st', sh := sh }, showObs (st'.out.drop m.st.out.length) (st'.inv.drop m.st.inv.length))
+
+/-- at the end of a case the two models must have written the same responses and run the same handlers -/
+def sharedAgrees (m : MState) : Bool :=
+  let fin := shFlush (tieCfg (m.n2 = 1)) m.sh
+  sortStrings ((fin.out.map Shared.Wr.wire).map showWire) == sortStrings (m.st.out.map showWire) &&
+  sortStrings (fin.inv.map showInv) == sortStrings (m.st.inv.map showInv) &&
+  fin.mbox.isEmpty && fin.pending.isEmpty && fin.ltimers.isEmpty && fin.dropped.isEmpty
 
 def modelStep (m : MState) (line : String) : MState × String :=
   let ws := words line
@@ -149,7 +216,9 @@ def modelStep (m : MState) (line : String) : MState × String :=
   | some "reset" => ({}, "ok")
   | some "bind" =>
     match kvNat ws "c", kv ws "to" with
-    | some c, some t => (m.bind c (if t = "-" then "" else t), "ok")
+    | some c, some t =>
+      let k := if t = "-" then "" else t
+      ({ m.bind c k with sh := shSetKey (tieCfg (m.n2 = 1)) m.sh c k }, "ok")
     | _, _ => (m, "bad-op")
   | some "reqs" | some "flood" =>
     applyOps m (((parseItems ws).filter fun it => ¬ m.hsing.contains it.c).map fun it =>
@@ -170,7 +239,9 @@ def modelStep (m : MState) (line : String) : MState × String :=
   | some "pipe" =>
     applyOps m ((parseItems ws).map fun it => .req (m.sess it.c false) ⟨it.id, it.route, it.pay.toModel⟩)
   | some "adv" => applyOps m [.adv 5000]
-  | some "flush" => applyOps m [.adv 45000]
+  | some "flush" =>
+    let (m', obs) := applyOps m [.adv 45000]
+    (m', if sharedAgrees m' then obs else obs ++ " shared-model-diverges")
   | _ => (m, "bad-op")
 
 /-! ### spec mode: the property on the implementation's own observations -/
@@ -210,7 +281,7 @@ structure SState where
   hsing : List Nat := []
   n2 : Nat := 1
 
-def zooMethods : List String := ["echo", "fail", "boom", "slow", "late", "tell", "nan", "login", "loginw"]
+def zooMethods : List String := ["echo", "fail", "boom", "slow", "late", "s29", "s33", "tell", "nan", "fail0", "login", "loginw"]
 
 /-- the service a route's type names for this client (the tie's routing rules, stated directly) -/
 def namedService (keys : List (Nat × String)) (n2 : Nat) (c : Nat) (t : String) : Option String :=
@@ -235,15 +306,17 @@ def classify (keys : List (Nat × String)) (n2 : Nat) (it : Item) : Expect × St
     match namedService keys n2 it.c t with
     | none => (.error, "no-target", none, false)
     | some svc =>
-      let known := g = "zoo" ∧ zooMethods.contains m
+      -- group zoob exists at the back-end types only
+      let known := (g = "zoo" ∧ zooMethods.contains m) ∨ (g = "zoob" ∧ t ≠ "gate" ∧ (m = "hang" ∨ m = "okboom"))
       match payV it.pay with
       | none => (.error, if known then "undecodable" else "unknown-method", some svc, false)
       | some v =>
         if ¬ known then (.error, "unknown-method", some svc, false)
+        else if g = "zoob" ∧ m = "hang" then (.error, "silent-handler", some svc, true)
         else if m = "tell" then (.error, "notify-method", some svc, true)
         else if m = "fail" ∨ m = "boom" then (.error, "handler-failure", some svc, true)
-        else if m = "nan" then ((if t = "gate" then .error else .errorOrBlank), "handler-failure", some svc, true)
-        else if m = "late" ∧ t ≠ "gate" then (.dataOrError svc m v, "slow-handler", some svc, true)
+        else if m = "nan" ∨ m = "fail0" then ((if t = "gate" then .error else .errorOrBlank), "handler-failure", some svc, true)
+        else if (m = "late" ∨ m = "s33") ∧ t ≠ "gate" then (.dataOrError svc m v, "slow-handler", some svc, true)
         else (.data svc m v, "", some svc, true)
   | _ => (.error, "no-target", none, false)
 
